@@ -164,6 +164,62 @@ def edges_and_roundtrips(ctx, points, degrees):
                               {"point": label, "pair": [src, dst], "lib": coord, "ref": xs})
 
 
+def direct_roundtrips(ctx, points, degrees):
+    """Random-polynomial part of edges_and_roundtrips for points without a pipeline (no source forms are built)."""
+    edges = registry_edges()
+    rng = ctx.rng
+    from hiten.algorithms.hamiltonian import transforms as tr
+    from hiten.system.libration.collinear import CollinearPoint
+    for k, (label, point) in enumerate(points):
+        if not ctx.mine(k):
+            continue
+        try:
+            C = np.asarray(point.normal_form_transform[0])
+            condC = np.linalg.cond(C)
+        except Exception:
+            C, condC = None, None
+        mix = (1, 2) if isinstance(point, CollinearPoint) else (0, 1, 2)
+        for deg in degrees:
+            for (a_name, b_name) in INVERSE_PAIRS:
+                for (src, dst) in ((a_name, b_name), (b_name, a_name)):
+                    if (src, dst) not in edges or (dst, src) not in edges:
+                        continue
+                    if "physical" in (src, dst) and C is None:
+                        ctx.skip(f"normal form unavailable at {label}")
+                        continue
+                    ham, Hd = random_poly_ham(rng, deg, src, real=True)
+                    ctx.case(f"direct-roundtrip:{src}->{dst}", [label, deg, src, dst, int(rng.integers(1 << 30))], nontrivial=True)
+                    try:
+                        mid = ham.to_state(dst, point=point)
+                        mid = mid[0] if isinstance(mid, tuple) else mid
+                        back = mid.to_state(src, point=point)
+                        back = back[0] if isinstance(back, tuple) else back
+                    except Exception as exc:
+                        mech = MECH_NAMEERR if isinstance(exc, NameError) else None
+                        ctx.check(False, "2:round trip on a random polynomial executes", {"point": label, "pair": [src, dst], "error": (type(exc).__name__ + str(exc))[:300]}, mech)
+                        continue
+                    a = {kk: complex(v) for kk, v in Hd.items()}
+                    scale = max(abs(v) for v in a.values())
+                    cond = condC ** deg if "physical" in (src, dst) else 1.0
+                    e = max_coeff_diff(a, poly_dict(back))
+                    ctx.check(e <= (1e-11 + 1e-13 * cond) * scale * 20, "2:conversions registered in both directions are inverses (random polynomial, direct call)",
+                              {"point": label, "degree": deg, "pair": [src, dst], "err": e, "scale": scale, "cond": cond})
+                    x = (rng.normal(size=6) + 1j * rng.normal(size=6)) * 0.7
+                    if (src, dst) == ("physical", "real_modal"):
+                        xs = C @ x
+                    elif (src, dst) == ("real_modal", "physical"):
+                        xs = np.asarray(point.normal_form_transform[1]) @ x
+                    elif "complex" in dst and "complex" not in src:
+                        xs = tr._M(mix) @ x
+                    else:
+                        xs = tr._M_inv(mix) @ x
+                    v_new = pu.eval_dict(poly_dict(mid), x)
+                    v_old = pu.eval_dict(a, xs)
+                    mag = sum(abs(c) * np.prod(np.abs(xs) ** np.array(kk)) for kk, c in a.items()) + 1e-300
+                    ctx.check(abs(v_new - v_old) <= 1e-10 * mag * max(1.0, cond * 1e-3), "3:new polynomial at x == old polynomial at the transformed x (direct call)",
+                              {"point": label, "pair": [src, dst], "new": v_new, "old": v_old, "mag": mag, "mix_pairs_expected": mix})
+
+
 def point_maps(ctx, points, n):
     from hiten.algorithms.hamiltonian import transforms as tr
     from hiten.system.libration.collinear import CollinearPoint
@@ -216,6 +272,10 @@ def run(ctx):
             if L <= (2 if ctx.quick else 3):
                 pipe_points.append((f"{name}:L{L}", pt))
     guarded(ctx, "edges", edges_and_roundtrips, ctx, pipe_points, ctx.pick([3, 4], [2, 3, 4, 5, 6, 8]))
+    # the converters are also callable directly on any polynomial with any point as context: random-polynomial round trips and
+    # polynomial-vs-coordinate agreement at the points the pipeline does not serve (L3, L4, L5 incl. the triangular mixing of all pairs)
+    other = [(lab, pt) for (lab, pt) in all_points if (lab, pt) not in pipe_points and (ctx.quick is False or lab.startswith("earth-moon"))]
+    guarded(ctx, "direct-conversions", direct_roundtrips, ctx, other, ctx.pick([3], [2, 3, 4, 5]))
     guarded(ctx, "pointmaps", point_maps, ctx, all_points, ctx.pick(10, 200))
     ctx.require("1:every registered conversion executes", 13 if ctx.nshards == 1 else 3)
     ctx.require("2:conversions registered in both directions are inverses (random polynomial)", 10 if ctx.nshards == 1 else 2)
